@@ -22,7 +22,10 @@ func FixedInputs(entry string) []Input {
 		{SigType: 2, EncType: 0, KeySeed: 6, PadSeed: 7},
 		{SigType: 11, EncType: 4, KeySeed: 7, PadSeed: 8, PadMode: 2},
 		{SigType: 8, EncType: 5, KeySeed: 8, PadSeed: 9},
+		// a destination well beyond the usual 391 bytes: KEY certificate with 100 payload bytes
+		{SigType: 7, EncType: 4, KeySeed: 9, PadSeed: 10, Extra: hex.EncodeToString(model.Fill(100, 11))},
 	}
+	containers := append(append([]IdentSpec{}, idents[:7]...), idents[8]) // identities used inside the container structures
 	opts := Pairs{{"61", ""}, {"686f7374", "312e322e332e34"}, {"706f7274", "3830"}}
 	switch entry {
 	case "data.ReadInteger", "data.NewInteger":
@@ -73,7 +76,7 @@ func FixedInputs(entry string) []Input {
 	case "lease.ReadLease2", "lease.NewLease2FromBytes":
 		add(0, model.Fill(40, 1))
 	case "lease_set.ReadLeaseSet":
-		for _, s := range idents[:7] {
+		for _, s := range containers {
 			s.EncType = 0
 			if s.SigType != 0 {
 				s.NullCert = false
@@ -82,10 +85,10 @@ func FixedInputs(entry string) []Input {
 			add(0, m.Encode())
 		}
 	case "lease_set2.ReadLeaseSet2", "meta_leaseset.ReadMetaLeaseSet":
-		for i, s := range idents[:7] {
+		for i, s := range containers {
 			h := HeaderSpec{Dest: s, Published: 1700000000, Expires: 600, Flags: uint16(i%2) * 2}
 			if i%2 == 0 {
-				h.Offline = &OfflineSpec{Expires: 1900000000, TType: []int{7, 0, 1, 2, 11, 7, 0}[i], Seed: 9}
+				h.Offline = &OfflineSpec{Expires: 1900000000, TType: []int{7, 0, 1, 2, 11, 7, 0, 7}[i], Seed: 9}
 			}
 			if entry == "lease_set2.ReadLeaseSet2" {
 				m, _, _ := LS2Spec{Header: h, Options: opts[:i%4], Keys: []KeySpec{{Type: 4, Len: -1, Seed: 1}, {Type: 0, Len: -1, Seed: 2}}[:1+i%2],
@@ -109,7 +112,7 @@ func FixedInputs(entry string) []Input {
 		add(0, AddrSpec{Cost: 3, Style: "4e54435032", Options: opts}.Build().Encode())
 		add(0, AddrSpec{Cost: 0, Style: "", Options: nil}.Build().Encode())
 	case "router_info.ReadRouterInfo":
-		for _, s := range idents[:6] {
+		for _, s := range append(append([]IdentSpec{}, idents[:6]...), idents[8]) {
 			m, _ := RouterInfoSpec{Ident: s, Published: 1700000000000, Options: opts, Addrs: []AddrSpec{{Cost: 3, Style: "4e54435032", Options: opts}, {Cost: 9, Style: "53535532"}}}.Build()
 			add(0, m.Encode())
 		}
